@@ -546,6 +546,21 @@ def standin_read(tier, seed):
               'rule r{reactant r1{C labeled c1 C labeled c2 single bond to c1} modify atomtype (c1, C.) modify atomtype (c2, C.) break bond (c1, c2)}',
               'fragment a{ C labeled c1 }\rgarbage', 'fragment a{ C labeled c1 }\x0cgarbage !!', 'fragment a{ C labeled c1 }\xa0x', 'fragment a{ C labeled c1 }\u2028{{{'}
     counts, viol, seen, samples = {}, [], set(), []
+    # accepted text must have been consumed in full: a complete fragment followed by any blank and text that cannot
+    # continue it has to be rejected
+    complete = ['fragment a{ C labeled c1 }', 'fragment b{ C labeled c1 O labeled o1 double bond to c1 }',
+                'rule r{reactant r1{C labeled c1 H labeled h1 single bond to c1} increase number of radical (c1) increase number of radical (h1) break bond (c1, h1)}']
+    for base in complete:
+        if classify(base)[0] != 'ok':
+            continue
+        for sep in [' ', '\n', '\t', '\r', '\x0c', '\x0b', '\xa0', '\u2028', '\u3000', '']:
+            for junk in ['garbage', '}}', '!!', 'fragment', '7']:
+                t = base + sep + junk
+                kind, detail = classify(t)
+                counts['trailing-' + kind] = counts.get('trailing-' + kind, 0) + 1
+                if kind == 'ok' and len(viol) < 25:
+                    viol.append({'id': 'trailing-text-accepted-%r-%s' % (sep, junk), 'input': t, 'observed': 'accepted', 'expected': 'RINGSyntaxError (text after the end of the fragment)',
+                                 'script': "from pgradd.RINGParser.Reader import Read\nRead(%r)\n" % t})
     for t in sorted(texts):
         kind, detail = classify(t)
         counts[kind] = counts.get(kind, 0) + 1
